@@ -15,7 +15,7 @@ from dst.storage.simfile import Budget, IoSeam, ReadBudgetExceeded
 
 ID = "C15"
 LEVEL = "exploration"
-RUNS = {"quick": 40000, "thorough": 3000000}
+RUNS = {"quick": 1000000, "thorough": 6000000}
 CHUNK = {"quick": 500, "thorough": 2000}
 PROBES = ["straddles_chunk", "overlapping", "at_offset_0", "at_eof", "limit_inside_occurrence", "leading_zero_needle",
           "needle_len_1", "artifact_hit", "artifact_overlap", "artifact_eof_cut", "artifact_maxrange", "start_none",
